@@ -740,6 +740,7 @@ def native_call(w):
                'int pick(double x) { printf("LIB %g\\n", x); return 1; }',
                'int stride(int num, int offset, int step) { printf("LIB %d %d %d\\n", num, offset, step); return 9; }',
                'int toggle(bool flag, int n, int m) { printf("LIB %d %d %d\\n", (int) flag, n, m); return 4; }',
+               'int divide(int num, int *rem, int den, bool neg) { printf("LIB %d %d %d\\n", num, den, (int) neg); *rem = 13; return 6; }',
                'void fill2(int nrow, int ncol, double *out) { printf("LIB %d %d\\n", nrow, ncol); for (int i = 0; i < nrow * (ncol - 1); i++) out[i] = i; }',
                'int *getRow(int n) { static int row[4096]; printf("LIB %d\\n", n); return row; }']
         with open(os.path.join(tmp, "lib.cpp"), "w") as f:
@@ -787,7 +788,7 @@ def native_call(w):
                 return "%s: the library received %r natively, the call supplies %r" % (call, got, want)
             res = [l for l in out.splitlines() if l.startswith("RESULT")]
             expect = {"add": "7", "scale": "2.5", "isPositive": "True", "noArgs": "None", "getName": "'nm'", "setName": "None", "len": "3",
-                      "divmod": "(11, 13)", "stride": "9", "toggle": "4", "pick": "3" if w["supplied"] == 3 else "1"}
+                      "divmod": "(11, 13)", "divide": "(6, 13)", "stride": "9", "toggle": "4", "pick": "3" if w["supplied"] == 3 else "1"}
             if w["function"] in expect and res and res[0].split(" ", 1)[1] != expect[w["function"]]:
                 return "%s returns %s natively, the library's result is %s" % (call, res[0].split(" ", 1)[1], expect[w["function"]])
             if w["function"] == "fill2" and res:
